@@ -497,6 +497,12 @@ def user_sites(f):
             local = fn.get("rlocal", fn.get("local", False))
             if local:
                 continue
+            if path in ("core::mem::maybe_uninit::MaybeUninit::assume_init_drop", "core::mem::manually_drop::ManuallyDrop::drop",
+                        "<[core::mem::maybe_uninit::MaybeUninit<T>]>::assume_init_drop", "<*mut T>::drop_in_place"):
+                # in-place destruction of a value of the element type
+                if any(_mentions_param(a) for a in fn.get("args", [])) or True:
+                    out.append((b, "drop-call", "%s::<%s>" % (fn["short"], ",".join(fn.get("args", [])))))
+                continue
             if path == "core::ptr::drop_in_place" or path == "core::mem::drop":
                 if any(_mentions_param(a) for a in fn.get("args", [])) or t.get("arg_user_drop"):
                     out.append((b, "drop-call", "%s::<%s>" % (fn["short"], ",".join(fn.get("args", [])))))
